@@ -144,6 +144,7 @@ class CallMixin:
     # ---------------------------------------------------------------- inline
     def inline_call(self, fn, selfv, args, kwargs, p, target, line):
         if fn.key in self.inline_stack: raise Undecided('recursion through ' + fn.key)
+        self.inlined[fn.key] = fn.sha256
         c = self.contracts.get(fn.key, {})
         names = [a.arg for a in fn.node.args.args]
         defaults = fn.node.args.defaults
